@@ -21,41 +21,6 @@ def tol_for(d):
     return Fraction(1, 10 ** 13)
 
 
-def sym_vec(prefix, n):
-    return [T.var('%s%d' % (prefix, i)) for i in range(n)]
-
-
-def s2m_map(h, d, ctx):
-    """execute GetGSLMatrix symbolically; return (re, im) coefficient tables: entry -> Poly over atoms of 'x' vars"""
-    n = d * d
-    xs = sym_vec('x', n)
-    ps = h.run('h_s2m', [I(d), Buf('a', xs), Buf('re', n=n), Buf('im', n=n)])
-    assert len(ps) == 1 and ps[0].status == 'ok' and ps[0].ret == 0, ps
-    p = ps[0]
-    re = [ctx.poly(v) for v in p.out('re')]
-    im = [ctx.poly(v) for v in p.out('im')]
-    for q in re + im:
-        assert q.degree() <= 1 and () not in q.d, 'S2M is not linear-homogeneous'
-    xat = [ctx.atom(x) for x in xs]
-    return re, im, xat, h.last_ex.stats
-
-
-def apply_map(re, im, xat, comps, d):
-    """matrix (as d x d of (Poly re, Poly im)) of the vector whose components are the Polys `comps`"""
-    idx = {a: k for k, a in enumerate(xat)}
-    M = [[None] * d for _ in range(d)]
-    for i in range(d):
-        for j in range(d):
-            pr = Poly()
-            pi = Poly()
-            for m, c in re[i * d + j].d.items():
-                pr = pr + comps[idx[m[0][0]]].scale(c)
-            for m, c in im[i * d + j].d.items():
-                pi = pi + comps[idx[m[0][0]]].scale(c)
-            M[i][j] = (pr, pi)
-    return M
-
-
 def work(item):
     d, tier = item
     t0 = time.time()
